@@ -21,7 +21,9 @@ CHECKS = {
              'columns carry settings / defaults / notes / properties / inline references, standalone references, table groups and sticky '
              'notes, written with ANY positive number of empty lines between its elements and any number of line breaks at its end, '
              'is parsed to exactly the declared database (every element once, in source order, references linked to the named '
-             'columns); built on parseDoc_elems_gaps_end, parseDoc_elems, DocSpec.build; partial: spacing inside an element and the '
+             'columns); document_faithful_variants / enums_tables_spelling_inert (C01Case.lean) - element forms that declare the same '
+             'blueprints in another spelling (keywords Table / Enum in any letter case, table names bare or quoted) are parsed to the same '
+             'database; built on parseDoc_elems_gaps_end, parseDoc_elems, DocSpec.build; partial: spacing inside an element and the '
              'other element features are left to the correspondence; theorems '
              'about the same model for any text are claimed under C05/C06/C07/C08.',
         note='trusted: hand-written model tied by sampling; the speller (harness/speller.py) as independent expected-model oracle',
@@ -29,11 +31,11 @@ CHECKS = {
     'C02': dict(
         level='translation_validation',
         text='Oracle on the real code: content(parse(db.dbml)) == content(db) and the 2nd and 3rd renderings are byte-identical, for '
-             'databases parsed from spelled documents (no exemption: whatever a parse returns must round-trip), built through the '
+             'databases parsed from spelled documents (no exemption: whatever a parse returns must round-trip; each database is rendered twice and dumped again: same text, same content), built through the '
              'public classes from Expressible values, the corpus, and wild API-built ones whose named reason outside Expressible '
              'must be a listed finding. Correspondence: the Lean DBML renderer produces the same text and the Lean parser model '
-             'reads it back to the same content. Theorems flags_document_roundtrip_partial (WHOLE DOCUMENTS: enums, tables whose columns carry settings / '
-             'default / note / properties, each table possibly under a comment, references written inline in a column or standalone, table groups, sticky notes - same database back; built on a '
+             'reads it back to the same content. Theorems flags_document_roundtrip_partial (WHOLE DOCUMENTS: a project, enums whose items may carry notes, tables whose columns carry settings / '
+             'default / note / properties, each table possibly under a comment and with a Note block, references written inline in a column or standalone, table groups, sticky notes - same database back; built on a '
              'generic notion of element form, parseDoc_elems), flags_refs_roundtrip_partial (any number of tables whose columns carry settings, a note and '
              'properties, followed by any number of different standalone references: same database back), flags_table_roundtrip_partial (one table whose columns carry any subset of pk / increment / '
              'unique / not null, possibly an integer default, a one-line note and - option on - any number of properties; an instance of form_roundtrip, which '
